@@ -286,6 +286,27 @@ def build_records(pa, rng, tier, rep):
                                                     cat_dissim=pa.LevenshteinCategoricalDissimilarity(names3, delta_empty=cde))
             add("comb", "lev", d, grid_pairs(names3, sample=80), de, a, b, rank=rank3,
                 meta={"kind": "Combined(levenshtein)", "component_delta_empty": cde})
+    # --- every component kind built with a delta_empty that is neither 1 nor the combined dissimilarity's (always, not by chance)
+    for kind in ("abs", "pre", "ord", "lev"):
+        for de, cde in ((2.0, 0.5), (0.5, 2.0)):
+            a, b = rng.choice([0, 1, 3]), rng.choice([1, 3])
+            kw = {}
+            if kind == "abs":
+                comp = pa.AbsoluteCategoricalDissimilarity(delta_empty=cde)
+            elif kind == "pre":
+                m = pre_matrix(3)
+                comp = pa.PrecomputedCategoricalDissimilarity(SortedSet(names3), m, delta_empty=cde)
+                kw = {"M": [[rat(x) for x in row] for row in m.tolist()]}
+            elif kind == "ord":
+                perm = list(names3)
+                rng.shuffle(perm)
+                comp = pa.OrdinalCategoricalDissimilarity(perm, delta_empty=cde)
+                kw = {"supplied": [rank3[n] for n in perm], "pos": [0, 1, 2]}
+            else:
+                comp = pa.LevenshteinCategoricalDissimilarity(names3, delta_empty=cde)
+            d = pa.CombinedCategoricalDissimilarity(alpha=a, beta=b, delta_empty=de, cat_dissim=comp)
+            add("comb", kind, d, grid_pairs(names3, sample=60), de, a, b, rank=rank3,
+                meta={"kind": f"Combined({kind})", "component_delta_empty": cde, "note": "component delta_empty neither 1 nor the combined one"}, **kw)
     # --- ONE categorical component object shared by two combined dissimilarities with different delta_empty: each combined
     # dissimilarity must go on computing with the one delta_empty IT was given, whatever is built on the same component later
     for kind in ("pre", "abs"):
